@@ -66,16 +66,17 @@ def schemeBin (τ : ITy) (op : BinOp) (x y : Int) : Res :=
     | .int32 | .int => .ok (.int (imul x y))                        -- ($imul(%e, %e))
     | .uint32 | .uint | .uintptr => .ok (.int (shr (imul x y) 0))   -- ($imul(%e, %e) >>> 0)
     | _ => .ok (.int (fixNumber τ (JSInt.mul x y).toInt))           -- fixNumber("%e * %e")
-  | .quo =>                                                         -- :387-395
-    -- (_q = x / y, (_q === _q && _q !== 1/0 && _q !== -1/0) ? _q >> 0 : $throwRuntimeError(…)), `>>>` if unsigned
+  | .quo =>                                                         -- QUO case (after fix C06-quo-fixup)
+    -- (_q = x / y, (_q === _q && _q !== 1/0 && _q !== -1/0) ? fixNumber(_q) : $throwRuntimeError(…));
+    -- every fix-up starts with a ToInt32 coercion, which truncates the fraction toward zero
     match JSInt.div x y with
     | .nonFinite => .panic
-    | .trunc q => .ok (.int (if τ.signed then sar q 0 else shr q 0))
-  | .rem =>                                                         -- :400-401
-    -- (_r = x % y, _r === _r ? _r : $throwRuntimeError(…)) — no fix-up
+    | .trunc q => .ok (.int (fixNumber τ q))
+  | .rem =>                                                         -- REM case (after fix C06-rem-fixup)
+    -- (_r = x % y, _r === _r ? fixNumber(_r) : $throwRuntimeError(…))
     match JSInt.rem x y with
     | none => .panic
-    | some r => .ok r
+    | some r => .ok (.int (fixNumber τ r.toInt))
   | .and => .ok (.int (if τ.signed then band x y else shr (band x y) 0))   -- :420-424
   | .or => .ok (.int (if τ.signed then bor x y else shr (bor x y) 0))
   | .andNot => .ok (.int (fixNumber τ (band x (bnot y))))           -- :425-426 fixNumber("%e & ~%e")
@@ -104,18 +105,20 @@ def jsShift (τ : ITy) (op : ShOp) (x n : Int) : Int :=
   | .shr => if τ.signed then sar x n else shr x n
 
 /-- expressions.go:402-418, shifts. `n` is the value of the count (a 64-bit count goes through `$flatten64`, `%f`).
-    constant count: `i >= 32 → 0`, else `fixNumber("%e op i")`;
+    constant count: `i >= 32 → 0` (signed `>>`: `fixNumber((%e >> 31))`, fix C06-shr-const-count), else `fixNumber("%e op i")`;
     variable count, signed `>>`: `fixNumber((%e >> $min(%f, 31)))`;
     otherwise `fixNumber((y = %f, y < 32 ? (%e op y) : 0))`. -/
 def schemeShift (τ : ITy) (op : ShOp) (constCount : Bool) (x n : Int) : Int :=
-  if constCount then (if n ≥ 32 then 0 else fixNumber τ (jsShift τ op x n))
+  if constCount then
+    (if n ≥ 32 then (if op = .shr ∧ τ.signed then fixNumber τ (sar x 31) else 0) else fixNumber τ (jsShift τ op x n))
   else if op = .shr ∧ τ.signed then fixNumber τ (sar x (jsMin n 31))
   else fixNumber τ (if n < 32 then jsShift τ op x n else 0)
 
-/-- expressions.go:289-307, unary operators: `-x` gets `fixNumber` only for unsigned types. -/
+/-- unary operators (expressions.go, `case *ast.UnaryExpr`): `fixNumber("-%e")` for every non-64-bit integer type
+    (after fix C06-unary-minus; the parenthesised fix-up also keeps `- -a` from being emitted as `--a`), `fixNumber("~%e")`. -/
 def schemeUn (τ : ITy) (op : UnOp) (x : Int) : JSNum :=
   match op with
-  | .neg => if τ.signed then JSInt.neg x else .int (fixNumber τ (JSInt.neg x).toInt)
+  | .neg => .int (fixNumber τ (JSInt.neg x).toInt)
   | .not => .int (fixNumber τ (bnot x))
 
 /-- expressions.go:363-376: `===`, `<`, `<=`, `>`, `>=` on JS numbers; `!=` is `!(… === …)` (:315-321). -/
@@ -175,5 +178,28 @@ def scheme64Cmp (op : CmpOp) (x y : W64) : Bool :=
   | .leq => decide (x.high < y.high ∨ (x.high = y.high ∧ x.low ≤ y.low))
   | .gtr => decide (x.high > y.high ∨ (x.high = y.high ∧ x.low > y.low))
   | .geq => decide (x.high > y.high ∨ (x.high = y.high ∧ x.low ≥ y.low))
+
+/-! ### Repaired defects: the schemes as they were before the fixes C06-unary-minus, C06-quo-fixup, C06-rem-fixup,
+    C06-shr-const-count (kept only so that the old counterexamples stay machine-checked) -/
+
+/-- before C06-unary-minus: `-%e` without fix-up for signed types -/
+def schemeNegV0 (τ : ITy) (x : Int) : JSNum :=
+  if τ.signed then JSInt.neg x else .int (fixNumber τ (JSInt.neg x).toInt)
+
+/-- before C06-quo-fixup: `_q >> 0` / `_q >>> 0` for every width -/
+def schemeQuoV0 (τ : ITy) (x y : Int) : Res :=
+  match JSInt.div x y with
+  | .nonFinite => .panic
+  | .trunc q => .ok (.int (if τ.signed then sar q 0 else shr q 0))
+
+/-- before C06-rem-fixup: `_r` without fix-up -/
+def schemeRemV0 (x y : Int) : Res :=
+  match JSInt.rem x y with
+  | none => .panic
+  | some r => .ok r
+
+/-- before C06-shr-const-count: a constant count ≥ 32 folded to the literal 0 -/
+def schemeShiftConstV0 (τ : ITy) (op : ShOp) (x n : Int) : Int :=
+  if n ≥ 32 then 0 else fixNumber τ (jsShift τ op x n)
 
 end GV.NumScheme
